@@ -54,7 +54,10 @@ UNITS += [Unit('jd_sobj', 'wrappers/jd.cpp', defs=CONT, cuts={'CUT_PV_ALL': r'12
 OBS.append(Ob(['C15', 'C10', 'C03', 'C11', 'C16'], 'skip_object_step', 'jd_sobj', 'harness/jd_cont.c', 'h_skip_object', defs=['UNIT_H="jd_sobj.h"', 'NB=3'], unwind=6, fs='none', cap=400, hunwind=12,
     desc='skipObject one activation (keys and values cut): code / consumed / keys / values / limit equal the reference object recogniser', bound="'{' + all continuations of 3 bytes, all limits, every key / value behaviour allowed by the contracts (<= 4 members)"))
 UNITS += [Unit('jd_pobj', 'wrappers/jd.cpp', defs=CONT, cuts={'CUT_PV_ALL': r'12parseVariantINS1_14AllowAllFilterE', 'CUT_SV': r'11skipVariantE', 'CUT_PKEY': r'JsonDeserializerI7VReaderE8parseKeyEv',
-    'CUT_GETMEMBER': r'(?:^|@)_ZNK\w*10ObjectData9getMemberINS1_19StaticStringAdapterE', 'CUT_SB_SAVE': r'13StringBuilder4saveEv$', 'CUT_ADD_MEMBER': r'10ObjectData9addMemberIPNS1_10StringNodeE', 'CUT_VCLEAR': r'11VariantData5clearEPNS1_15ResourceManagerE$'})]
+    'CUT_GETMEMBER?': r'(?:^|@)_ZNK\w*10ObjectData9getMemberINS1_19StaticStringAdapterE', 'CUT_GETMEMBER_SIZED?': r'(?:^|@)_ZNK\w*10ObjectData9getMemberINS1_17JsonStringAdapterE', 'CUT_SB_SAVE': r'13StringBuilder4saveEv$', 'CUT_ADD_MEMBER': r'10ObjectData9addMemberIPNS1_10StringNodeE', 'CUT_VCLEAR': r'11VariantData5clearEPNS1_15ResourceManagerE$'})]
+OBS.append(Ob(['C01', 'C14'], 'parse_object_nulkey', 'jd_pobj', 'harness/jd_cont.c', 'h_parse_object', defs=['UNIT_H="jd_pobj.h"', 'NB=2', 'NULKEY=1'], unwind=5, fs='none', cap=800, hunwind=12,
+    desc='parseObject with a parsed key that contains NUL (k NUL x): the member lookup receives the whole key, length included (a prefix match would overwrite another member)',
+    bound="'{' + all continuations of 2 bytes, all limits, every contract-allowed callee behaviour"))
 for nb_, tier_, cap_ in [(2, 'quick', 800), (3, 'thorough', 2000)]:
     OBS.append(Ob(['C01', 'C15', 'C10', 'C03', 'C05', 'C16'], 'parse_object_step_n%d' % nb_, 'jd_pobj', 'harness/jd_cont.c', 'h_parse_object', defs=['UNIT_H="jd_pobj.h"', 'NB=%d' % nb_], unwind=nb_ + 3, fs='none', cap=cap_, tier=tier_, hunwind=12,
         desc='parseObject<AllowAll> one activation (key scanner, member lookup/creation, clear and values cut): token discipline, limit, repeated key parsed into the existing member after exactly one clear, new key saved+added once, NoMemory on a failed member slot',
